@@ -177,9 +177,11 @@ def run(ctx, rep):
         terms = [terminal(t) for _, t in b.calls() if terminal(t)]
         rc = [a for m, a in terms if m == "read_const"]
         rep.check("C03.rfc", "frame sync 0b111111111111100 in 15 bits", rc and rc[0][:2] == [str(spec["sync_bits"]), str(spec["sync_code"])], loc_of(b), str(rc))
-        seq = [m for m, a in terms]
-        rep.check("C03.rfc", "frame header field order", seq == ["read_const", "read_bit", "parse", "parse_using", "parse", "parse_using", "skip", "parse", "parse_using", "parse_using", "skip"],
-                  loc_of(b), str(seq))
+        seq = [m + ("<%s>" % a[0] if m.startswith("parse") and a else "") for m, a in terms]
+        want = ["read_const", "read_bit", "parse<stream::BlockSize<()>>", "parse_using<stream::SampleRate<()>>", "parse<stream::ChannelAssignment>",
+                "parse_using<stream::BitsPerSample>", "skip", "parse<stream::FrameNumber>", "parse_using<stream::BlockSize<u16>>", "parse_using<stream::SampleRate<u32>>", "skip"]
+        rep.check("C03.rfc", "frame header field order (sync, strategy, 4 coded fields, reserved bit, coded number, block-size escape, sample-rate escape, CRC-8)",
+                  seq == want, loc_of(b), str(seq), "RFC 9639 9.1 field order is %s, reader parses %s" % (want, seq))
 
     # ---- fixed predictor coefficients ----------------------------------------------------------------
     fc = F.statics.get("stream::SubframeHeaderType::FIXED_COEFFS")
@@ -206,6 +208,27 @@ def run(ctx, rep):
     if b is not None:
         wide = [t for _, t in b.calls() if (t["f"].get("path") == "bitstream_io::BitRead::parse_using" and targs(t) and targs(t)[0] == "stream::Subframe<i64>")]
         rep.check("C03.wide", "stream::Frame::read_inner: 3 side-channel arms with a Subframe<i64> alternative", len(wide) >= 3, loc_of(b), "%d" % len(wide))
+    # wide arms must do their arithmetic in 64 bits: no i32 arithmetic inside a closure that handles the i64 side channel
+    if b is not None:
+        b2 = anchor(F, rep, "C03.wide", "decode::read_subframes")
+        nw = 0
+        for cb in F.closures_of(b2) if b2 is not None else []:
+            if not any(l["ty"] == "i64" for l in cb.locals[1:]):
+                continue
+            if not any("i64" in l["ty"] for l in cb.locals[1:cb.j["argc"] + 1]):
+                continue
+            nw += 1
+            narrow = []
+            for bl in cb.blocks:
+                for st in bl["s"]:
+                    if st["rv"]["r"] == "bin" and st["rv"]["op"] in ("Add", "Sub", "Mul", "AddWithOverflow", "SubWithOverflow", "MulWithOverflow", "Shl") and st["rv"].get("ty") == "i32":
+                        narrow.append(st["rv"]["op"])
+            for _, t in cb.calls():
+                if re.search(r"core::num::<impl i32>::(wrapping|checked|saturating|overflowing)_(add|sub|mul|shl|abs)$", callee_name(t)):
+                    narrow.append(callee_name(t).rsplit("::", 1)[1])
+            rep.check("C03.wide", "33-bit reconstruction in %s is done in 64 bits (no i32 arithmetic before widening)" % strip_generics(cb.path).rsplit("::", 1)[-1] , not narrow, loc_of(cb),
+                      "", "wide side-channel reconstruction performs %s on i32 before widening: overflows for loud 32-bit material" % narrow)
+        rep.floor("C03.wide", "wide reconstruction closures", nw, 3)
     rb = F.one("decode::read_residuals::read_block")
     rep.check("C03.wide", "read_block is generic over the sample type (i32 and i64 instantiations share one body)", len(rb) == 1, "", "")
 
